@@ -70,13 +70,17 @@ def lazy_measure(task: dict) -> dict:
                             except Exception:  # pylint: disable=broad-except
                                 pass
                         del it
+                        import gc
+                        gc.collect()
+                        time.sleep(0.15)  # abandoning the iterator must not read the rest of the dataset either
+                        opened |= {n for n in w.poll() if n.endswith(dsreal.EXT)}
                         return got, opened
 
                     status, val = _timed(go, timeout=60)
                     w.close()
                     if status == "hang":
                         out["problems"].append(("take-hangs", f"{fmt} {iface} {cfg}: taking {cfg['take']} examples "
-                                                f"from {S} shards did not return", cfg))
+                                                f"from {S} shards (and abandoning the iterator) did not return", cfg))
                         return out
                     if status == "raise":
                         out["problems"].append(("raised", f"{fmt} {iface} {cfg}: {type(val).__name__}: {val}", cfg))
